@@ -186,12 +186,21 @@ def run(model, tier):
         'straight-ray term pairs detonator position dets[i] with its own detonation time t_d[i] (5 terms), otherwise the '
         'burn time at a detonator is not its detonation time. (iii) DSD cylindrical expansion: the inner- and outer-material '
         'expressions have equal normal forms at r = r_2 (log(1) = 0), and the inner one reduces to t_d at r = r_1: continuity '
-        'across the material interface and at the detonator circle by construction. The eikonal equation, '
-        'continuity across the Kenamond2 sphere and the Kenamond3 shadow boundary and the min/max composition are '
-        'numeric and not decided; the admissibility guards are decided under C20.')
+        'across the material interface and at the detonator circle by construction. (iv) Eikonal equation '
+        '(sa/rules/c13_eikonal.py): every arrival-time expression that flows into a burn-time field through stores, min/max and '
+        'if-selection (Kenamond1/2/3: 9 expressions incl. the tangent-arc-tangent shadow path; DSD: 2) depends on the point only '
+        'through dot products of vectors affine in the point; with those as variables, the Gram matrix of their gradients from '
+        'vector algebra and normal-form differentiation through sqrt / arccos / log, |grad t|^2 == 1/D^2 for one of the solver\'s '
+        'speeds (DSD: D_CJ_i - alpha_i/r) identically, in any dimension. Kenamond2: the max between the D1 and D2 expressions '
+        'switches exactly on the sphere |P - c| = R (difference == (1/D2 - 1/D1)(|P - c| - R)): local-material gradient and '
+        'continuity across the sphere. Kenamond3: where the code\'s angle theta vanishes the shadow path equals the line of '
+        'sight (cosine addition with cos(arccos u) = u). Not decided: that the minimum over detonators is the first arrival for '
+        'every admissible layout (causality); the admissibility guards are decided under C20.')
     res.rule_text = 'instances: dimension constraints, detonator/time pairs, interface identities'
     res.trusted_base = ['CPython ast', 'sympy FracField', 'NF engine']
     dims(model, res)
     pairing(model, res)
     interface_continuity(model, res)
+    from . import c13_eikonal
+    c13_eikonal.eikonal(model, res)
     return res
